@@ -303,6 +303,7 @@ def battery(repo, classes, name, tier, seed=0, focus=False):
             pool = [250000, 250001, 250002, 250003, 250004] if style == "largeclose" else [-2, -1, 0, 0.5, 1, 2, 3]
             raws = rnd.sample(pool, ln)
         counter = [0]
+        fortran = len(shape) >= 2 and (i % 3 == 1)
 
         def arr(fuzzy, sh, dtype=None):
             n_ = _size(sh)
@@ -339,7 +340,10 @@ def battery(repo, classes, name, tier, seed=0, focus=False):
             if dt == "int":
                 coll = int(coll)
             data = [((coll if pay == "collide" else loud) if m else v) for v, m in zip(data, mask)]
-            return {"dtype": dt, "data": data, "mask": mask, "fuzzy": bool(fuzzy)}
+            out_ = {"dtype": dt, "data": data, "mask": mask, "fuzzy": bool(fuzzy)}
+            if fortran and len(sh) >= 2:
+                out_["layout"] = "F"  # memory layout must not matter: column-major (non C-contiguous) inputs
+            return out_
 
         nlist = rnd.choice([1, 2, 2, 3, 3, 4, 5]) if (focus or tier != "quick") else rnd.choice([1, 2, 3, 3, 4])
         for pname, p in decl.inputs.items():
@@ -475,6 +479,132 @@ def immutability_cases(repo, classes, tier, seed=0):
             cases.append({"module": classes[pname].module.dotted, "class": pname, "inputs": {"InFieldName": inp}, "params": {}, "shape": [4],
                           "then": [{k: v for k, v in c.items() if k != "fuzzy_in"} for c in chain]})
     return cases
+
+
+SHAPE_PAIRS = [([4, 1], [4]), ([4], [1, 4]), ([2, 1, 2], [2, 2]), ([1, 3], [3]), ([3], [3, 1]), ([2, 2], [4]), ([2, 3], [3, 2]), ([1, 1, 3], [1, 3]),
+               ([2, 2], [2, 2, 1]), ([1], [1, 1]), ([4], [2]), ([2, 1], [1, 2])]
+
+
+def shape_confusion_cases(repo, classes, names, tier, seed=0):
+    """commands with two or more data inputs, fed inputs whose shapes differ (also only by length-1 axes, by a transposition, or by
+    a reshape of the same cells): C05 lets them raise or return the shape of *every* input - which no result can do here"""
+    cases = []
+    for n in names:
+        decl = CommandDecl(repo, classes[n])
+        singles = [pn for pn, p in decl.inputs.items() if p.cls == "ResultParameter"]
+        lists = [pn for pn, p in decl.inputs.items() if p.cls == "ListParameter" and isinstance(p.value_type, ParamDecl) and p.value_type.cls == "ResultParameter"]
+        if not lists and len(singles) < 2:
+            continue
+        base = None
+        for b in battery(repo, classes, n, "thorough", seed + 3):
+            if lists and len(b["inputs"][lists[0]].get("items", [])) < 2:
+                continue
+            if any("shape" in it for pn in lists for it in b["inputs"][pn]["items"]):
+                continue
+            base = b
+            break
+        if base is None:
+            continue
+
+        def fit(spec, sh, own):
+            m = _size(sh)
+            d = dict(spec)
+            d["data"] = (list(spec["data"]) * (m + 1))[:m]
+            d["mask"] = [False] * m
+            d.pop("layout", None)
+            if own:
+                d["shape"] = sh
+            return d
+
+        for (s1, s2) in SHAPE_PAIRS:
+            for (x, y) in ((s1, s2), (s2, s1)):
+                c = dict(base, shape=x, inputs={}, params=dict(base["params"]))
+                for pn, spec in base["inputs"].items():
+                    if spec.get("kind") == "single":
+                        c["inputs"][pn] = fit(spec, y if (not lists and pn == singles[-1]) else x, not lists and pn == singles[-1])
+                    else:
+                        items = spec["items"]
+                        c["inputs"][pn] = {"kind": "list", "items": [fit(it, y if k == len(items) - 1 else x, k == len(items) - 1) for k, it in enumerate(items)]}
+                cases.append(c)
+    return cases
+
+
+def judge_shape_confusion(case, o):
+    if o.get("outcome") == "harness-error":
+        return [("harness-error", o.get("error", "")[-300:])]
+    if o.get("outcome") != "return":
+        return []
+    r = o.get("result") or {}
+    shapes = []
+    for pn, spec in case["inputs"].items():
+        for it in ([spec] if spec.get("kind") == "single" else spec["items"]):
+            shapes.append(list(it.get("shape", case["shape"])))
+    got = r.get("shape")
+    wrong = [sh for sh in shapes if sh != got]
+    if wrong:
+        return [("shape", "%s accepted inputs of shapes %s and returned %s of shape %s: not the shape of its inputs" % (case["class"], shapes, r.get("kind"), got))]
+    return []
+
+
+def reorder_cases(repo, classes, names, tier, seed=0):
+    """the list-input commands among `names` over shared input objects, evaluated in the listed order and then in a permuted one
+    (weights move with their layers; a first weight of 1 and a repeated layer are among the cases)"""
+    import random
+
+    rnd = random.Random(777 + seed)
+    cases = []
+    per = 12 if tier == "quick" else 60
+    for n in names:
+        decl = CommandDecl(repo, classes[n])
+        lists = [pn for pn, p in decl.inputs.items() if p.cls == "ListParameter" and isinstance(p.value_type, ParamDecl) and p.value_type.cls == "ResultParameter"]
+        if len(lists) != 1:
+            continue
+        got = 0
+        for base in battery(repo, classes, n, "thorough", seed + 11):
+            items = base["inputs"][lists[0]].get("items", [])
+            k = len(items)
+            if k < 2 or any(tuple(it.get("shape", base["shape"])) != tuple(base["shape"]) for it in items):
+                continue
+            c = dict(base, params=dict(base["params"]))
+            w = c["params"].get("Weights")
+            if isinstance(w, list) and len(w) == k and got % 2 == 0:
+                c["params"]["Weights"] = [1] + list(w[1:])
+            perm = list(range(k))
+            while perm == list(range(k)):
+                rnd.shuffle(perm)
+            if got % 3 == 2:
+                perm = perm[::-1] if perm[::-1] != list(range(k)) else perm
+            c["reorder"] = perm
+            cases.append(c)
+            got += 1
+            if got >= per:
+                break
+    return cases
+
+
+def judge_reorder(case, o):
+    if o.get("outcome") == "harness-error":
+        return [("harness-error", o.get("error", "")[-300:])]
+    r = o.get("reordered")
+    if not r or o.get("outcome") != "return":
+        return []
+    a = o.get("result") or {}
+    if r.get("outcome") != "return":
+        return [("value", "%s accepts its inputs in the listed order but raises %s for the order %s" % (case["class"], r.get("exc_class"), case["reorder"]))]
+    b = r.get("result") or {}
+    if a.get("kind") == "other" or b.get("kind") == "other":
+        return []
+    if a.get("shape") != b.get("shape") or a.get("mask") != b.get("mask"):
+        return [("mask", "%s: shape / missing cells differ between the listed order and the order %s: %s vs %s" % (case["class"], case["reorder"], a.get("mask"), b.get("mask")))]
+    for i, (x, y, m) in enumerate(zip(a["data"], b["data"], a["mask"])):
+        if m:
+            continue
+        if isinstance(x, str) or isinstance(y, str):
+            if x != y:
+                return [("value", "%s: cell %d differs between orders: %s vs %s" % (case["class"], i, x, y))]
+        elif not replay.close(x, y):
+            return [("value", "%s: cell %d is %r in the listed order and %r in the order %s (same input objects, weights moved with their layers)" % (case["class"], i, x, y, case["reorder"]))]
+    return []
 
 
 def judge_immutability(case, o):
